@@ -254,7 +254,8 @@ vh::Outcome run_locks(const vh::Case& c, Prop prop) {
                         if constexpr (ordered) {
                             st.shared_alive++;   // inside read() no modification may happen; bracket conservatively inside the functor
                             st.shared_alive--;
-                            w.read([&](const Tracked& t) { ScopedInc alive(st.shared_alive); uint64_t a = t.read(); for (int s = 0; s < (op.b & 3); ++s) vrt::step(); vrt::fault_point(vrt::F_FUNCTOR); uint64_t b2 = t.read(); if (a != b2) vrt::fail("unstable-read", "value changed inside read()"); });
+                            if (op.a & 1) { uint64_t rv = w.read([&](const Tracked& t) { ScopedInc alive(st.shared_alive); vrt::fault_point(vrt::F_FUNCTOR); return t.read(); }); (void)rv; }
+                            else w.read([&](const Tracked& t) { ScopedInc alive(st.shared_alive); uint64_t a = t.read(); for (int s = 0; s < (op.b & 3); ++s) vrt::step(); vrt::fault_point(vrt::F_FUNCTOR); uint64_t b2 = t.read(); if (a != b2) vrt::fail("unstable-read", "value changed inside read()"); });
                         }
                     } else {
                         if constexpr (shared_handle) {
